@@ -215,6 +215,29 @@ fn judge_binuint<A: Subject + AllPairs>(ctx: &mut Ctx, case: &Case, wl: &str) {
     let sig = format!("{}|{}|rhs={}", type_class(a.ty), op.name(), x.ty().name());
     let cs = || uint_case(&a, x, op, form).enc();
     ctx.sample(wl, cs);
+    // C04's hidden-state clause for a native right-hand side: the same operation with the integer's bits at and
+    // beyond n cleared must give a result no observer or later operation can tell from this one (both results come
+    // from the same `a` through the same code path).
+    if ctx.prop == "C04" && matches!(op, Op::And | Op::Or | Op::Xor) && n < 128 && x.val() >> n != 0 {
+        if let (Some(e), Ok(res)) = (&expected, &r) {
+            let xc = x.ty().make(x.val() & model::mask128(n));
+            if let Ok(res_cut) = guarded(|| A::bin_uint(&av, op, form, xc)) {
+                ctx.bucket("high-bits-metamorphic:uint");
+                let fails = crate::battery::battery_scoped(ctx, res, e, s % 7 == 0, None, Some(&res_cut));
+                if let Some(f) = fails.first() {
+                    ctx.violation(
+                        &format!("{}:high-bits-of-b-observable", op.name()),
+                        &sig,
+                        &cs(),
+                        format!(
+                            "{} {} {} (form {}): the result is distinguishable from the result of the same operation with the integer cut to {} bits: {} : {}",
+                            a.describe(), op.name(), x.enc(), form.name(), n, f.item, f.detail.replace("fresh twin", "result with b cut")
+                        ),
+                    );
+                }
+            }
+        }
+    }
     match (&expected, r) {
         (Some(e), Ok(res)) => {
             check_result::<A>(ctx, op.name(), &sig, &cs(), &res, e, s % 61 == 0);
@@ -990,6 +1013,7 @@ pub const REQUIRED_C04: &[&str] = &[
     "rhs-high-bits-beyond-n:Bvf:or", "rhs-high-bits-beyond-n:Bvd:or", "rhs-high-bits-beyond-n:Bv:or",
     "rhs-high-bits-beyond-n:Bvf:xor", "rhs-high-bits-beyond-n:Bvd:xor", "rhs-high-bits-beyond-n:Bv:xor",
     "rhs-high-bits-beyond-n:Bvf:and", "uint-value>=2^n", "not:by-ref", "not:owned",
+    "high-bits-metamorphic", "high-bits-metamorphic:uint",
 ];
 pub const REQUIRED_C20: &[&str] = &[
     "forms:add", "forms:sub", "forms:mul", "forms:div", "forms:rem", "forms:and", "forms:or", "forms:xor",
